@@ -117,6 +117,8 @@ def make_scenario(rnd, counts, nues_choices=None, fault=None, opts=None):
             "ambrDl": num(rnd.choice([0, 1, 255, 256, 1 << 32, 4000000000000, rnd.randrange(4000000000001)])),
             "ambrUl": num(rnd.choice([0, 1, 65535, 65536, 1 << 24, 4000000000000])),
         })
+        # the AMF's algorithm priority lists (TS 33.501 6.7.1): it selects the first entry the UE advertises
+        ues[-1]["encPrio"], ues[-1]["intPrio"] = rnd.choice([[0], [1, 2, 0], [2, 1, 0], [2, 0, 1]]), rnd.choice([[2], [1, 2], [2, 1]])
         # optional IEs of the PDU SESSION RESOURCE SETUP REQUEST itself (TS 38.413 9.2.1.1): RAN Paging Priority precedes the list
         r2 = random.Random(rnd.random())
         ues[-1]["setupPaging"] = opts.get("setup_paging", r2.random() < 0.5)
@@ -133,6 +135,7 @@ def make_scenario(rnd, counts, nues_choices=None, fault=None, opts=None):
             s_ = d * 3 + u
             rr = random.Random(rnd.random())
             ue["optIEs"] = (d + u) % 3
+            ue["encPrio"], ue["intPrio"] = [[1, 2, 0], [0], [2, 1, 0]][(d + u) % 3], [[1, 2], [2, 1], [2]][(d + u) % 3]
             ue["ngksi"] = [0, 6, 3, 1, 5][(d + u) % 5]
             ue["amfField"] = [[0x80, 0], [0, 0], [0xff, 0xff]][(d + u) % 3]
             if (d + 2 * u) % 3 < 2:
@@ -143,7 +146,8 @@ def make_scenario(rnd, counts, nues_choices=None, fault=None, opts=None):
             ue["qosRules"] = [rr.randrange(256) for _ in range(qlens[s_ % 6])]
             ue["setupPaging"] = opts.get("setup_paging", s_ % 2 == 0)
             ue["withAmbr"] = (s_ // 2) % 2 == 0
-            ue["ambrDl"] = num([1 << 32, 0, 4000000000000, 255, 256, 1][s_ % 6])
+            # 139 is the id of the tunnel IE that follows the bit rate IE in the transfer: its encoding contains the octets 00 8B
+            ue["ambrDl"] = num([139, 1 << 32, 4000000000000, 0, 256, 35584][s_ % 6])
         for u in range(1, len(ues)):
             if ues[u]["amfId"] in [x["amfId"] for x in ues[:u]]:
                 ues[u]["amfId"] = num(1000 + u)
